@@ -651,6 +651,7 @@ func main() {
 		{"txnsSrc", []string{"TxnsSrc.lean"}, genTxnsSrc},
 		{"trackerSrc", []string{"TrackerSrc.lean"}, genTrackerSrc},
 		{"aggLoopSrc", []string{"AggLoopSrc.lean"}, genAggLoopSrc},
+		{"mainOpts", []string{"MainOpts.lean"}, genMainOpts},
 	}
 	status := map[string]interface{}{}
 	failed := 0
